@@ -7,6 +7,7 @@ import (
 	"go/types"
 	"os"
 	"path/filepath"
+	"regexp"
 	"sort"
 	"strings"
 
@@ -186,6 +187,12 @@ func (e *Engine) resolveTypeQuiet(pkg *types.Package, text string) (types.Type, 
 	}
 	if pkg == nil {
 		return nil, ""
+	}
+	if len(e.tparams) > 0 {
+		for name, ta := range e.tparams {
+			re := regexp.MustCompile(`\b` + regexp.QuoteMeta(name) + `\b`)
+			text = re.ReplaceAllString(text, types.TypeString(ta, types.RelativeTo(pkg)))
+		}
 	}
 	ck := pkg.Path() + "::" + text
 	if t, ok := e.typeCache[ck]; ok {
@@ -1031,6 +1038,13 @@ func (fr *Frame) applyContract(ct *Contract, callee *ssa.Function, recv *Val, ar
 		if srt := u.ghostSort[g]; srt != "" {
 			st.ghost[g] = u.w.newConst("g:"+g, srt)
 		}
+	}
+	if ct.Counted {
+		gk := "calls:" + ct.Key
+		u.ghostSort[gk] = "Int"
+		n := u.w.newConst("calls", "Int")
+		u.fact(eq(n, fmt.Sprintf("(+ %s 1)", u.ghostOf(st, gk))))
+		st.ghost[gk] = n
 	}
 	fr.bumpNow(st)
 	res := fr.havocResults(st, resTy, shortKey(key))
